@@ -14,7 +14,13 @@ def driver_path(handler):
 ALLOWED_AXIOMS = {'propext', 'Classical.choice', 'Quot.sound'}
 
 class InfraError(Exception):
-  """Something about the machinery (not the property) failed: exit status 2."""
+  """Something prevented a check from reaching a verdict.  Raised by the machinery itself (drivers, protocol, build,
+  time-outs: `MachineryError`, exit status 2) or by a check's harness when the implementation or a generator does something
+  the harness cannot work with (then check.run_check turns it into a broken correspondence: the property is no longer
+  shown to hold on this tree)."""
+
+class MachineryError(InfraError):
+  """drivers, protocol, build, time-outs: never a verdict (exit status 2)"""
 
 def sexp(x):
   """Encode ints / strings / bools / None / nested lists+tuples as an S-expression."""
@@ -40,11 +46,11 @@ def parse_sexp(s):
     if t == '(':
       stack.append(cur); cur = []
     elif t == ')':
-      if not stack: raise InfraError(f'unbalanced reply {s!r}')
+      if not stack: raise MachineryError(f'unbalanced reply {s!r}')
       parent = stack.pop(); parent.append(cur); cur = parent
     else:
       cur.append(t)
-  if stack: raise InfraError(f'unbalanced reply {s!r}')
+  if stack: raise MachineryError(f'unbalanced reply {s!r}')
   return cur
 
 def lake_build(targets, timeout=3000):
@@ -61,7 +67,7 @@ class Driver:
     self.handler = handler
     self.path = driver_path(handler)
     if not os.path.exists(self.path):
-      raise InfraError(f'{self.path} missing (run MANIFEST.setup_cmd)')
+      raise MachineryError(f'{self.path} missing (run MANIFEST.setup_cmd)')
     self.calls = 0
     self.lines = 0
 
@@ -72,14 +78,14 @@ class Driver:
     r = subprocess.run([self.path], input=data, stdout=subprocess.PIPE, stderr=subprocess.PIPE,
                        text=True, timeout=timeout)
     if r.returncode != 0:
-      raise InfraError(f'{self.handler} driver exit {r.returncode}: {r.stderr[-2000:]}')
+      raise MachineryError(f'{self.handler} driver exit {r.returncode}: {r.stderr[-2000:]}')
     out = r.stdout.split('\n')
     if out and out[-1] == '': out.pop()
     if len(out) != len(lines):
-      raise InfraError(f'{self.handler} driver returned {len(out)} lines for {len(lines)} requests; stderr={r.stderr[-500:]}')
+      raise MachineryError(f'{self.handler} driver returned {len(out)} lines for {len(lines)} requests; stderr={r.stderr[-500:]}')
     for req, rep in zip(lines, out):
       if rep == 'bad-op':
-        raise InfraError(f'{self.handler} driver rejected request: {req[:300]}')
+        raise MachineryError(f'{self.handler} driver rejected request: {req[:300]}')
     self.calls += 1; self.lines += len(lines)
     return out
 
